@@ -210,6 +210,51 @@ func (p *Program) withFrame(fn *ssa.Function, args []ssa.Value, f func()) {
 // linFromFrame: v is a parameter of a function being inlined, or a field of a struct-valued (or pointer-to-struct)
 // parameter of it: the argument at the inlined call, resp. the value the call site stored into that field of the struct
 // it passes, linearised in the caller's context.
+// throughFrames: a parameter of a helper being read in its caller's terms stands for the argument of that call; the
+// value is followed outwards through the frames (conversions stripped).
+func (p *Program) throughFrames(v ssa.Value) ssa.Value {
+	for hops := 0; hops < 6; hops++ {
+		v = stripConv(v)
+		prm, ok := v.(*ssa.Parameter)
+		if !ok {
+			return v
+		}
+		found := false
+		for k := len(p.linFrames) - 1; k >= 0; k-- {
+			if p.linFrames[k].fn == prm.Parent() {
+				if i := paramIndex(prm.Parent(), prm); i >= 0 && i < len(p.linFrames[k].args) {
+					v = p.linFrames[k].args[i]
+					found = true
+				}
+				break
+			}
+		}
+		if !found {
+			return v
+		}
+	}
+	return v
+}
+
+// inCallerOf runs f on the argument the framed parameter prm stands for, with the frames cut back to the caller's.
+func (p *Program) inCallerOf(prm *ssa.Parameter, f func(arg ssa.Value)) bool {
+	for k := len(p.linFrames) - 1; k >= 0; k-- {
+		if p.linFrames[k].fn == prm.Parent() {
+			i := paramIndex(prm.Parent(), prm)
+			if i < 0 || i >= len(p.linFrames[k].args) {
+				return false
+			}
+			arg := p.linFrames[k].args[i]
+			saved := p.linFrames
+			p.linFrames = saved[:k]
+			defer func() { p.linFrames = saved }()
+			f(arg)
+			return true
+		}
+	}
+	return false
+}
+
 func (p *Program) linFromFrame(v ssa.Value, depth int) (Lin, bool) {
 	frameOf := func(prm *ssa.Parameter) int {
 		for i := len(p.linFrames) - 1; i >= 0; i-- {
